@@ -202,10 +202,15 @@ func TestBounded(t *testing.T) {
 		trees[k] = gen(rng, 3, &salt)
 		order = append(order, k)
 	}
-	if vp.Thorough() {
+	{
+		// a directory large enough to be sharded automatically, with names up to NAME_MAX (255 bytes:
+		// inside a shard the stored link name is the bucket prefix plus the name, so it is longer)
 		m := map[string]*ent{}
 		for i := 0; i < 1300; i++ {
 			m[fmt.Sprintf("%s-%04d", strings.Repeat("n", 195), i)] = file([]byte{byte(i)})
+		}
+		for i, n := range []int{253, 254, 255, 255} {
+			m[fmt.Sprintf("%s%d", strings.Repeat("L", n-1), i)] = file([]byte{byte(n)})
 		}
 		trees["autoshard"] = dir(map[string]*ent{"large": dir(m), "small": file([]byte("s"))})
 		order = append(order, "autoshard")
